@@ -99,6 +99,20 @@ fn main() {
     } )* } }
     agree!(u8, u16, u32, u64, u128, usize, i8, i16, i32, i64, i128, isize, f32, f64, char, bool, String, Box<str>, Vec<()>,
            [u8; 3], [u64; 10], Option<u32>, Option<String>, Option<[u16; 7]>, [String; 4], Option<Vec<()>>);
+    // a table answers exactly what was registered: nothing for a type that was never registered (no fall-back to the host)
+    macro_rules! absent { ($($ty:ty),*) => { $( {
+        let name = { use truc::record::type_resolver::HostTypeResolver; HostTypeResolver.type_info::<$ty>().name };
+        if !keys.iter().any(|k| k == &name) {
+            tables += 1;
+            if let Ok(a) = catch(|| t.type_info::<$ty>()) {
+                writeln!(ora, "property=C18 the table answers {}/{} for {} which was never registered", a.size, a.align, name).unwrap();
+            }
+            if let Ok(a) = catch(|| t.dynamic_type_info(&name)) {
+                writeln!(ora, "property=C18 the table answers {}/{} for the name `{}` which was never registered", a.info.size, a.info.align, name).unwrap();
+            }
+        }
+    } )* } }
+    absent!(Vec<u32>, [u32; 11], Option<Option<u8>>, (u8, u64), verif_harness::userty::Foo, Box<[u16]>);
     // registering a type twice panics
     let dup = catch(|| { let mut x = StaticTypeResolver::new(); x.add_type::<u8>(); x.add_type::<u8>(); });
     if dup.is_ok() { writeln!(ora, "property=C18 registering a type twice is accepted").unwrap(); }
